@@ -1261,7 +1261,7 @@ class H2Stream:
             for i in range(
                 0, len(encoded_headers), self.max_outbound_frame_size
             )
-        ]
+        ] or [b'']
 
         frames = []
         first_frame.data = header_blocks[0]
